@@ -134,6 +134,21 @@ def run_case(ck, desc):
         if above.sum() > 1 and np.any(np.diff(bo[above]) >= 0):
             ck.violation("bo-falls-above-pb", {"array_dtype": label, "max_step": float(np.max(np.diff(bo[above])))}, desc)
         ck.count(f"array_sweeps.{label}")
+    # 8. a twin oil a few parts per million away, swept right afterwards: the inverse relation and
+    #    the plateau must hold for ITS parameters (nothing remembered from the previous oil)
+    gor2, T2 = gor * (1 + 4e-6), T * (1 - 3e-6)
+    pb2 = oil.pressure_bubblepoint_Standing(T2, api, gg, gor2)
+    lo2 = np.linspace(15.0, pb2 * (1 - 1e-7), 12)
+    rs2 = np.array([float(oil.solution_gor_Standing(T2, x, api, gg, gor2)) for x in lo2])
+    inv2 = np.array([oil.pressure_bubblepoint_Standing(T2, api, gg, r) for r in rs2])
+    e2 = float(np.max(np.abs(inv2 - lo2) / lo2))
+    if not ck.margin("gor-inverts-bubblepoint (twin oil)", e2, 1e-9):
+        ck.violation("gor-inverts-bubblepoint", {"twin_oil": True, "worst_rel": e2}, desc)
+    if float(oil.solution_gor_Standing(T2, pb2 * 1.3, api, gg, gor2)) != gor2:
+        ck.violation("gor-equals-initial-above-pb", {"twin_oil": True}, desc)
+    arr2 = np.asarray(oil.solution_gor_Standing(T2, np.concatenate([lo2, [pb2 * 1.3]]), api, gg, gor2), dtype=float)
+    if arr2[-1] != gor2 or float(np.max(np.abs(arr2[:-1] - rs2) / rs2)) > 1e-12:
+        ck.violation("gor-array-equals-scalar (twin oil)", {"max_rel": float(np.max(np.abs(arr2[:-1] - rs2) / rs2))}, desc)
     ck.note_max("largest_bubble_point", pb)
     ck.note_max("smallest_bubble_point_neg", -pb)
     ck.count("sweeps")
